@@ -113,6 +113,8 @@ package wire
 //@ fieldinv Provider.Out forall i :: 0 <= i && i < len(v) ==> v[i] != nil
 //@ fieldinv Provider.Pkg v != nil
 //@ fieldinv Value.Out v != nil
+//@ fieldinv Value.expr v != nil
+//@ fieldinv Value.info v != nil
 //@ fieldinv Field.Out forall i :: 0 <= i && i < len(v) ==> v[i] != nil
 //@ fieldinv Field.Parent v != nil
 //@ fieldinv IfaceBinding.Iface v != nil
@@ -141,6 +143,10 @@ package wire
 //@ define ownsAllArgs(m *typeutil.Map, set *ProviderSet) = set.InjectorArgs != nil ==> ownsArgs(m, set.InjectorArgs.Tuple, set.InjectorArgs.Tuple.Len())
 //@ define mapsOK(pm *typeutil.Map, sm *typeutil.Map) = pm != nil && sm != nil && pm != sm && wfProvMap(pm) && wfSrcMap(sm) && (forall k int :: TMD[pm][k] == TMD[sm][k])
 
+// [C02] the provider-map entry of an injector parameter type is an entry for that very type
+//@ define provArgs(pm *typeutil.Map, tup *types.Tuple, n int) = forall j :: 0 <= j && j < n ==> TMD[pm][tid(tup.At(j).Type())] && tid(TMV[pm][tid(tup.At(j).Type())].(*ProvidedType).t) == tid(tup.At(j).Type())
+//@ define provArgsAll(pm *typeutil.Map, set *ProviderSet) = set.InjectorArgs != nil ==> provArgs(pm, set.InjectorArgs.Tuple, set.InjectorArgs.Tuple.Len())
+
 //@ func bindingConflictError
 //@   modifies OUTLEN, OUTEV
 //@   requires wfSrc(cur) && wfSrc(prev) && typ != nil
@@ -161,25 +167,34 @@ package wire
 //@   requires forall i :: 0 <= i && i < len(set.Imports) ==> set.Imports[i].providerMap != nil && set.Imports[i].srcMap != nil
 //@   ensures [C05] len(result.2) > 0 ==> result.0 == nil && result.1 == nil
 //@   ensures [C05] len(result.2) == 0 ==> mapsOK(result.0, result.1)
+//@   ensures [C02] len(result.2) == 0 ==> provArgsAll(result.0, set)
 //@   ensures [C05] len(result.2) == 0 ==> ownsAllArgs(result.1, set) && ownsImps(result.1, set.Imports, len(set.Imports)) && ownsProvs(result.1, set.Providers, len(set.Providers)) && ownsVals(result.1, set.Values, len(set.Values)) && ownsFields(result.1, set.Fields, len(set.Fields)) && ownsBinds(result.1, set.Bindings, len(set.Bindings))
 //@   ensures [C05] len(result.2) == 0 ==> forall i, j :: 0 <= i && i < len(set.Values) && 0 <= j && j < len(set.Values) && tid(set.Values[i].Out) == tid(set.Values[j].Out) ==> set.Values[i] == set.Values[j]
 //@   ensures [C05] len(result.2) == 0 ==> forall i, o, j :: 0 <= i && i < len(set.Providers) && 0 <= o && o < len(set.Providers[i].Out) && 0 <= j && j < len(set.Values) ==> tid(set.Providers[i].Out[o]) != tid(set.Values[j].Out)
 //@   ensures [C05] len(result.2) == 0 ==> forall i, j :: 0 <= i && i < len(set.Bindings) && 0 <= j && j < len(set.Values) ==> tid(set.Bindings[i].Iface) != tid(set.Values[j].Out)
 //@   loop 1 invariant mapsOK(providerMap, srcMap) && ec != nil
 //@   loop 1 invariant [C05] len(ec.errors) == 0 ==> ownsArgs(srcMap, givens, i)
+//@   loop 1 invariant [C02] len(ec.errors) == 0 ==> provArgs(providerMap, givens, i)
 //@   loop 2 invariant mapsOK(providerMap, srcMap) && ec != nil
+//@   loop 2 invariant [C02] len(ec.errors) == 0 ==> provArgsAll(providerMap, set)
 //@   loop 2 invariant [C05] len(ec.errors) == 0 ==> ownsAllArgs(srcMap, set) && ownsImps(srcMap, set.Imports, done)
 //@   loop 3 invariant mapsOK(providerMap, srcMap) && ec != nil
+//@   loop 3 invariant [C02] len(ec.errors) == 0 ==> provArgsAll(providerMap, set)
 //@   loop 3 invariant [C05] len(ec.errors) == 0 ==> ownsAllArgs(srcMap, set) && ownsImps(srcMap, set.Imports, len(set.Imports)) && ownsProvs(srcMap, set.Providers, done)
-//@   loop 4 invariant mapsOK(providerMap, srcMap) && ec != nil && wfSrc(src) && isProvSrc(src, p)
+//@   loop 4 invariant mapsOK(providerMap, srcMap) && ec != nil
+//@   loop 4 invariant [C02] len(ec.errors) == 0 ==> provArgsAll(providerMap, set) && wfSrc(src) && isProvSrc(src, p)
 //@   loop 4 invariant [C05] len(ec.errors) == 0 ==> ownsAllArgs(srcMap, set) && ownsImps(srcMap, set.Imports, len(set.Imports)) && ownsProvs(srcMap, set.Providers, done3) && ownsOuts(srcMap, p, done)
 //@   loop 5 invariant mapsOK(providerMap, srcMap) && ec != nil
+//@   loop 5 invariant [C02] len(ec.errors) == 0 ==> provArgsAll(providerMap, set)
 //@   loop 5 invariant [C05] len(ec.errors) == 0 ==> ownsAllArgs(srcMap, set) && ownsImps(srcMap, set.Imports, len(set.Imports)) && ownsProvs(srcMap, set.Providers, len(set.Providers)) && ownsVals(srcMap, set.Values, done)
 //@   loop 6 invariant mapsOK(providerMap, srcMap) && ec != nil
+//@   loop 6 invariant [C02] len(ec.errors) == 0 ==> provArgsAll(providerMap, set)
 //@   loop 6 invariant [C05] len(ec.errors) == 0 ==> ownsAllArgs(srcMap, set) && ownsImps(srcMap, set.Imports, len(set.Imports)) && ownsProvs(srcMap, set.Providers, len(set.Providers)) && ownsVals(srcMap, set.Values, len(set.Values)) && ownsFields(srcMap, set.Fields, done)
-//@   loop 7 invariant mapsOK(providerMap, srcMap) && ec != nil && wfSrc(src) && isFieldSrc(src, f)
+//@   loop 7 invariant mapsOK(providerMap, srcMap) && ec != nil
+//@   loop 7 invariant [C02] len(ec.errors) == 0 ==> provArgsAll(providerMap, set) && wfSrc(src) && isFieldSrc(src, f)
 //@   loop 7 invariant [C05] len(ec.errors) == 0 ==> ownsAllArgs(srcMap, set) && ownsImps(srcMap, set.Imports, len(set.Imports)) && ownsProvs(srcMap, set.Providers, len(set.Providers)) && ownsVals(srcMap, set.Values, len(set.Values)) && ownsFields(srcMap, set.Fields, done6) && ownsFOuts(srcMap, f, done)
 //@   loop 8 invariant mapsOK(providerMap, srcMap) && ec != nil
+//@   loop 8 invariant [C02] len(ec.errors) == 0 ==> provArgsAll(providerMap, set)
 //@   loop 8 invariant [C05] len(ec.errors) == 0 ==> ownsAllArgs(srcMap, set) && ownsImps(srcMap, set.Imports, len(set.Imports)) && ownsProvs(srcMap, set.Providers, len(set.Providers)) && ownsVals(srcMap, set.Values, len(set.Values)) && ownsFields(srcMap, set.Fields, len(set.Fields)) && ownsBinds(srcMap, set.Bindings, done)
 
 // ---------------------------------------------------------------------------
@@ -309,15 +324,59 @@ package wire
 
 //@ define argEntry(set *ProviderSet, t types.Type, n int) = set.providerMap != nil && TMD[set.providerMap][tid(t)] && TMV[set.providerMap][tid(t)].(*ProvidedType).a != nil && 0 <= TMV[set.providerMap][tid(t)].(*ProvidedType).a.Index && TMV[set.providerMap][tid(t)].(*ProvidedType).a.Index < n
 
+//@ fieldinv Provider.Args forall i :: 0 <= i && i < len(v) ==> v[i].Type != nil
+
+// Slot numbering of solve: slots 0..n-1 are the injector's parameters, slot n+k is the result of calls[k].
+//@ define slotTy(given *types.Tuple, calls []call, v int) = (v < given.Len() ? given.At(v).Type() : calls[v - given.Len()].out)
+//@ define PT(m *typeutil.Map, t types.Type) = TMV[m][tid(t)].(*ProvidedType)
+// index maps a visited type either to a valid slot of a type that has a source in the set, or to the abort marker (then an error was recorded).
+//@ define idxOK(index *typeutil.Map, given *types.Tuple, calls []call, set *ProviderSet, abort error, nerr int) = forall k int :: TMD[index][k] ==> ((TMV[index][k] is int) && 0 <= TMV[index][k].(int) && TMV[index][k].(int) < given.Len() + len(calls) && TMD[set.providerMap][k]) || (TMV[index][k] == abort && nerr > 0)
+// [C02] the slot recorded for a type holds a value of the concrete type the set designates for it
+//@ define idxTyped(index *typeutil.Map, given *types.Tuple, calls []call, set *ProviderSet) = (forall k int :: TMD[index][k] && (TMV[index][k] is int) && TMV[index][k].(int) < given.Len() ==> tid(given.At(TMV[index][k].(int)).Type()) == tid(TMV[set.providerMap][k].(*ProvidedType).t)) && (forall k int :: TMD[index][k] && (TMV[index][k] is int) && TMV[index][k].(int) >= given.Len() ==> tid(calls[TMV[index][k].(int) - given.Len()].out) == tid(TMV[set.providerMap][k].(*ProvidedType).t))
+// every call's result type is indexed at the call's own slot (hence each type is built at most once)
+//@ define callIdx(index *typeutil.Map, given *types.Tuple, calls []call) = forall k :: 0 <= k && k < len(calls) ==> TMD[index][tid(calls[k].out)] && (TMV[index][tid(calls[k].out)] is int) && TMV[index][tid(calls[k].out)].(int) == given.Len() + k
+// [C06] every input of every call has a source in the set; [C02] and is wired to the slot of that source
+//@ define insOK(calls []call, set *ProviderSet) = forall k, j :: 0 <= k && k < len(calls) && 0 <= j && j < len(calls[k].ins) ==> calls[k].ins[j] != nil && TMD[set.providerMap][tid(calls[k].ins[j])]
+//@ define wired(given *types.Tuple, calls []call, set *ProviderSet) = (forall k, j :: 0 <= k && k < len(calls) && 0 <= j && j < len(calls[k].ins) && calls[k].args[j] < given.Len() ==> tid(given.At(calls[k].args[j]).Type()) == tid(PT(set.providerMap, calls[k].ins[j]).t)) && (forall k, j :: 0 <= k && k < len(calls) && 0 <= j && j < len(calls[k].ins) && calls[k].args[j] >= given.Len() ==> tid(calls[calls[k].args[j] - given.Len()].out) == tid(PT(set.providerMap, calls[k].ins[j]).t))
+//@ define wiredLen(calls []call) = forall k :: 0 <= k && k < len(calls) && len(calls[k].ins) > 0 ==> len(calls[k].ins) == len(calls[k].args)
+//@ define canon(pm *typeutil.Map) = forall k int :: TMD[pm][k] && TMD[pm][tid(TMV[pm][k].(*ProvidedType).t)] ==> tid(PT(pm, TMV[pm][k].(*ProvidedType).t).t) == tid(TMV[pm][k].(*ProvidedType).t)
+//@ define stkOK(stk []frame) = forall i :: 0 <= i && i < len(stk) ==> stk[i].t != nil
+
 //@ func solve
-//@   requires out != nil
+//@   requires out != nil && set.providerMap != nil && mapsOK(set.providerMap, set.srcMap)
+//@   requires provArgs(set.providerMap, given, given.Len())
 //@   modifies nothing
 //@   ensures len(result.1) > 0 ==> len(result.0) == 0
 //@   ensures len(result.1) == 0 ==> wfCalls(result.0, given.Len())
 //@   ensures len(result.1) == 0 && len(result.0) == 0 ==> argEntry(set, out, given.Len())
+//@   ensures [C06] len(result.1) == 0 ==> insOK(result.0, set)
+//@   requires [C02] canon(set.providerMap)
+//@   ensures [C02] len(result.1) == 0 ==> wired(given, result.0, set) && wiredLen(result.0)
+//@   ensures [C02] len(result.1) == 0 ==> forall a, b :: 0 <= a && a < b && b < len(result.0) ==> tid(result.0[a].out) != tid(result.0[b].out)
+//@   loop 1 invariant 0 <= i && i <= given.Len() && index != nil && ec != nil && len(ec.errors) == 0
+//@   loop 1 invariant forall k int :: TMD[index][k] ==> (TMV[index][k] is int) && 0 <= TMV[index][k].(int) && TMV[index][k].(int) < i && TMD[set.providerMap][k]
+//@   loop 1 invariant [C02] forall k int :: TMD[index][k] ==> tid(given.At(TMV[index][k].(int)).Type()) == tid(TMV[set.providerMap][k].(*ProvidedType).t)
+//@   loop 2 invariant stkOK(stk) && wfCalls(calls, given.Len()) && errAbort != nil
+//@   loop 2 invariant idxOK(index, given, calls, set, errAbort, len(ec.errors))
+//@   loop 2 invariant callIdx(index, given, calls)
+//@   loop 2 invariant [C06] insOK(calls, set)
+//@   loop 2 invariant [C02] idxTyped(index, given, calls, set)
+//@   loop 2 invariant [C02] wired(given, calls, set) && wiredLen(calls)
+//@   loop 4 invariant 0 - 1 <= i && stkOK(stk)
+//@   loop 4 invariant visitedArgs ==> forall j :: i < j && j < len(p.Args) ==> TMD[index][tid(p.Args[j].Type)]
+//@   loop 5 invariant forall j :: 0 <= j && j < done ==> 0 <= args[j] && args[j] < given.Len() + len(calls) && ins[j] == p.Args[j].Type && TMD[set.providerMap][tid(ins[j])]
+//@   loop 5 invariant [C02] forall j :: 0 <= j && j < done && args[j] < given.Len() ==> tid(given.At(args[j]).Type()) == tid(PT(set.providerMap, ins[j]).t)
+//@   loop 5 invariant [C02] forall j :: 0 <= j && j < done && args[j] >= given.Len() ==> tid(calls[args[j] - given.Len()].out) == tid(PT(set.providerMap, ins[j]).t)
+//@   loop 5 invariant wfCalls(calls, given.Len())
+//@   loop 5 invariant [C06] insOK(calls, set)
+//@   loop 5 invariant [C02] wired(given, calls, set) && wiredLen(calls)
+//@   loop 6 invariant len(fieldNames) == done
+//@   props C02 C06
 
 //@ func (*gen).inject
 //@   nullable doc
+//@   requires set.providerMap != nil && mapsOK(set.providerMap, set.srcMap)
+//@   requires [C02] provArgs(set.providerMap, sig.Params(), sig.Params().Len())
 //@   loop 1 invariant ec != nil
 //@   loop 1 invariant forall k :: 0 <= k && k < len(pendingVars) ==> pendingVars[k].typeInfo != nil && pendingVars[k].expr != nil
 //@   loop 1 invariant [C09] len(ec.errors) == 0 ==> forall k :: 0 <= k && k < done ==> (calls[k].hasCleanup ==> injectSig.cleanup) && (calls[k].hasErr ==> injectSig.err)
@@ -461,6 +520,8 @@ package wire
 //@ func (*objectCache).processNewSet
 //@   nullable args
 //@   ensures len(result.1) == 0 ==> result.0 != nil && result.0.providerMap != nil && result.0.srcMap != nil
+//@   ensures len(result.1) == 0 ==> mapsOK(result.0.providerMap, result.0.srcMap)
+//@   ensures [C02] len(result.1) == 0 && args != nil ==> provArgs(result.0.providerMap, args.Tuple, args.Tuple.Len())
 //@   loop 1 invariant ec != nil && pset != nil && forall k :: 0 <= k && k < len(pset.Imports) ==> pset.Imports[k].providerMap != nil && pset.Imports[k].srcMap != nil
 //@ func (*gen).writeAST
 //@   requires node != nil
@@ -474,3 +535,35 @@ package wire
 //@   ensures len(result.1) == 0 ==> result.0 != nil
 //@   loop 1 invariant i <= len(provider.Args) && forall k :: 0 <= k && k < i ==> provider.Args[k].Type != nil
 //@   loop 2 invariant i < len(provider.Args) && forall k :: 0 <= k && k <= i ==> provider.Args[k].Type != nil
+
+// ---------------------------------------------------------------------------
+// analyze.go: verifyAcyclic (C07: proof part; completeness and termination are bounded-checked)
+// ---------------------------------------------------------------------------
+
+// t has dependencies in pm (its entry is a provider or a field), and d is one of them
+//@ define hasDeps(pm *typeutil.Map, t types.Type) = TMD[pm][tid(t)] && (PT(pm, t).p != nil || PT(pm, t).f != nil)
+//@ define isDep(pm *typeutil.Map, t types.Type, d types.Type) = (PT(pm, t).p != nil && (exists j :: 0 <= j && j < len(PT(pm, t).p.Args) && PT(pm, t).p.Args[j].Type == d)) || (PT(pm, t).p == nil && PT(pm, t).f != nil && PT(pm, t).f.Parent == d)
+// a trail is a non-empty path through the provider graph (every element but the last has the next one as a dependency)
+//@ define trailOK(pm *typeutil.Map, tr []types.Type) = len(tr) >= 1 && (forall i :: 0 <= i && i < len(tr) ==> tr[i] != nil) && (forall i :: 0 <= i && i < len(tr) - 1 ==> hasDeps(pm, tr[i]))
+//@ define trailPath(pm *typeutil.Map, tr []types.Type) = forall i :: 0 <= i && i < len(tr) - 1 ==> isDep(pm, tr[i], tr[i+1])
+
+//@ func verifyAcyclic
+//@   requires wfProvMap(providerMap)
+//@   modifies nothing
+//@   lensures [C07] forall k int :: TMD[providerMap][k] ==> TMD[visited][k]
+//@   loop 1 invariant forall i :: 0 <= i && i < len(outputs) ==> outputs[i] != nil
+//@   loop 1 invariant [C07] forall i :: 0 <= i && i < done ==> TMD[visited][tid(outputs[i])]
+//@   loop 1 invariant [C07] forall k int :: TMD[providerMap][k] ==> exists i :: 0 <= i && i < len(outputs) && tid(outputs[i]) == k
+//@   loop 2 invariant root != nil && (forall s :: 0 <= s && s < len(stk) ==> len(stk[s]) >= 1)
+//@   loop 2 invariant forall s, i :: 0 <= s && s < len(stk) && 0 <= i && i < len(stk[s]) ==> stk[s][i] != nil
+//@   loop 2 invariant forall s, i :: 0 <= s && s < len(stk) && 0 <= i && i < len(stk[s]) - 1 ==> hasDeps(providerMap, stk[s][i])
+//@   loop 2 invariant [C07] forall i :: 0 <= i && i < done1 ==> TMD[visited][tid(outputs[i])]
+//@   loop 2 invariant [C07] TMD[visited][tid(root)] || (len(stk) >= 1 && len(stk[0]) == 1 && stk[0][0] == root)
+//@   loop 3 invariant len(args) == done && forall j :: 0 <= j && j < done ==> args[j] == pt.p.Args[j].Type
+//@   loop 4 invariant forall s :: 0 <= s && s < len(stk) ==> len(stk[s]) >= 1
+//@   loop 4 invariant forall s, i :: 0 <= s && s < len(stk) && 0 <= i && i < len(stk[s]) ==> stk[s][i] != nil
+//@   loop 4 invariant forall s, i :: 0 <= s && s < len(stk) && 0 <= i && i < len(stk[s]) - 1 ==> hasDeps(providerMap, stk[s][i])
+//@   loop 4 invariant forall j :: 0 <= j && j < len(args) ==> args[j] != nil
+//@   loop 4 invariant trailOK(providerMap, curr) && hasDeps(providerMap, head) && head == curr[len(curr) - 1]
+//@   loop 4 invariant [C07] TMD[visited][tid(root)] || (len(stk) >= 1 && len(stk[0]) == 1 && stk[0][0] == root)
+//@   loop 6 invariant i <= j
